@@ -346,9 +346,10 @@ func fnCommandList(ctx *cmdContext, args map[string]any) (output respValue, err 
 
 func fnSort(ctx *cmdContext, args map[string]any) (output respValue, err error) {
 	sourceKeyName := args["key"].(string)
-	byPattern, _ := args["by"].(string)
+	// (by-pattern, get-pattern: the names the command definition gives the BY and GET arguments)
+	byPattern, _ := args["by-pattern"].(string)
 	offset_count, hasOffset := args["limit"].(*orderedMap) // (the LIMIT block of the command definition is named "limit")
-	getPatternsAny, _ := args["get"].([]any)
+	getPatternsAny, _ := args["get-pattern"].([]any)
 	_, isDesc := args["order.desc"]
 	_, isAlpha := args["sorting"] // this name may be a redis bug
 	destKeyName, _ := args["destination"].(string)
@@ -364,7 +365,11 @@ func fnSort(ctx *cmdContext, args map[string]any) (output respValue, err error) 
 	}
 
 	getPatterns := make([]string, 0, len(getPatternsAny))
-	for _, getPattern := range getPatternsAny {
+	for idx, getPattern := range getPatternsAny {
+		if idx%2 == 1 {
+			// the argument parser leaves the GET token of every further pattern in the list
+			continue
+		}
 		str := getPattern.(string)
 		getPatterns = append(getPatterns, str)
 	}
